@@ -11,6 +11,7 @@ require (
 	github.com/creack/pty v1.1.23 // indirect
 	github.com/sirikothe/gotextfsm v1.0.1-0.20200816110946-6aa2cfd355e4 // indirect
 	golang.org/x/crypto v0.26.0 // indirect
+	gopkg.in/yaml.v3 v3.0.1 // indirect
 )
 
 replace github.com/scrapli/scrapligo => /repo
